@@ -1,6 +1,8 @@
 From Coq Require Import extraction.Extraction extraction.ExtrOcamlBasic.
-From TU Require Import Base BPE_Model C03_Model.
+From TU Require Import Base BPE_Model C03_Model MsgPack_Model C03_File.
+(* exact on the ids; the bytes of the merge file the tokenizer was built from and the real loader's reading of
+   them (fields 1, 2 of the implementation output) must be what the model reads / would write (C03_File.v) *)
 Definition run := run_C03.
-Definition check := check_C03.
-Definition agree (inp m i : val) : bool := val_eqb m i.
+Definition check := check_C03f.
+Definition agree (inp m i : val) : bool := agree_C03f inp m i.
 Extraction "model.ml" run check agree.
